@@ -59,7 +59,13 @@ impl QBNumberCast<i64> for f32 {
 
 impl QBNumberCast<f32> for f64 {
     fn try_cast(&self) -> Result<f32, LintError> {
-        Ok(*self as f32)
+        // a double beyond the range of a single would become infinity
+        let f = *self as f32;
+        if f.is_finite() {
+            Ok(f)
+        } else {
+            Err(LintError::Overflow)
+        }
     }
 }
 
